@@ -124,6 +124,14 @@ func judgeTrace(inv *Inv, names map[string]bool, hasInv bool) string {
 			return bad("the test case went on after its invariant had skipped (a skip in the invariant makes the test case invalid)")
 		}
 		switch {
+		case e == "repeat>":
+			// a (further) Repeat call begins: its invariant is due before anything else
+			if inAct || inCheck {
+				return bad("Repeat was entered while a callback of an earlier Repeat was running")
+			}
+			if !dead {
+				expectCheck = hasInv
+			}
 		case inCheck && strings.HasPrefix(e, "skip "):
 			skippedInCheck = true
 		case e == "check>":
@@ -295,6 +303,14 @@ func c08Run(t *testing.T, sc Scenario, res *Result) {
 			}
 		}
 		p := &Prog{Seed: sc.Seed, Steps: []Step{m}}
+		if sc.Family == "machine" && len(m.Acts) >= 2 && r.chance(1, 5) {
+			// the property calls Repeat twice: first with a subset of the actions, then with all of them
+			sub := m
+			sub.Acts = append([]Action(nil), m.Acts[:(len(m.Acts)+1)/2]...)
+			sub.Shared, sub.actsCache = false, nil
+			p.Steps = []Step{sub, m}
+			res.inc("machines_with_two_Repeat_calls")
+		}
 		invHashed := false
 		for _, is := range m.Inv {
 			invHashed = invHashed || is.Pred.Typ == "hash"
